@@ -14,7 +14,7 @@ From ClapModel Require Import ParseProofs.Safe ParseProofs.Invariant ParseProofs
                               ParseProofs.Unparse ParseProofs.UnparseProofs ParseProofs.UnparseTop
                               ParseProofs.UnparseSub ParseProofs.UnparseTrail ParseProofs.UnparseTree.
 From ClapModel Require Import Derive.DeriveModel Derive.DeriveProofs Derive.DeriveCmd Derive.DeriveArgs Derive.DeriveParse
-                              Derive.DeriveAccept.
+                              Derive.DeriveAccept Derive.DeriveEnum.
 From Coq Require Import ZArith List Bool Lia.
 From RecordUpdate Require Import RecordSet.
 Import RecordSetNotations.
@@ -623,11 +623,8 @@ Proof.
   assert (Hdp : defaults_pass (d_nodes d) vs).
   { apply (defaults_pass_of_ok _ _ Hfo); [|exact Hok]. eapply Forall_impl; [|exact Hof]. intros f Hf. apply Hf. }
   destruct (print_accepted d bin vs argv Hs Hpr Hacc Hdp Hrm Hv Hp) as [m Hm].
-  apply (proj2 (parse_factor d (bin :: argv) vs)). exists m. split; [exact Hm|]. split.
-  - pose proof (roundtrip_parse_agrees d bin vs argv m Hs Hpr Hv Hp Hm) as Hag.
-    unfold print, print_top in Hp. destruct (print_nodes (d_nodes d) vs) as [p|] eqn:P; [|discriminate Hp].
-    apply (enum_ok_fields (d_nodes d) vs p m Hfo Hok P Hag).
-  - apply (roundtrip_parse_sound d bin vs argv m Hs Hpr Hok Hv Hp Hm).
+  apply (proj2 (parse_factor d (bin :: argv) vs)). exists m. split; [exact Hm|].
+  apply (roundtrip_parse_sound d bin vs argv m Hs Hpr Hok Hv Hp Hm).
 Qed.
 
 (** * G. [required_mentioned] holds by itself when no field carries an explicit [required = true]: the requiredness
@@ -702,15 +699,14 @@ Fixpoint fits_all (ns : nodes) (vs : list dval) : Prop :=
   | _, _ => True
   end.
 
-Lemma scalar_accepts t ic s x : parse_scalar t ic s = Some x -> vp_parse (vp_of false t) s = None.
+Lemma scalar_accepts t ic s x : parse_scalar t ic s = Some x -> vp_parse (vp_of false ic t) s = None.
 Proof.
-  destruct t as [| | | |e]; cbn [parse_scalar vp_of vp_parse].
+  destruct t as [| | | |e]; [| | | |apply enum_scalar_accepts]; cbn [parse_scalar vp_of vp_parse].
   - destruct (beq s s_true); [reflexivity|]. destruct (beq s s_false); [reflexivity|discriminate].
   - unfold parse_int_in. destruct (negb (utf8_valid s)); [discriminate|]. destruct (parse_i64 s) as [z|]; [|discriminate].
     destruct ((0 <=? z) && (z <=? 255))%Z; [reflexivity|discriminate].
   - unfold parse_int_in. destruct (negb (utf8_valid s)); [discriminate|]. destruct (parse_i64 s) as [z|]; [|discriminate].
     destruct ((i64_lo <=? z) && (z <=? i64_hi))%Z; [reflexivity|discriminate].
-  - destruct (utf8_valid s); [reflexivity|discriminate].
   - destruct (utf8_valid s); [reflexivity|discriminate].
 Qed.
 
@@ -777,15 +773,15 @@ Proof.
   - intros st. apply (verify_admits _ _ (bf_num f)); [apply bf_num_eq|apply Hfit; exact Hgin].
   - assert (Hnu : f_ty f <> TyUnit).
     { intros T. unfold field_groups in Hg. rewrite T in Hg. destruct v; discriminate Hg. }
-    assert (Hvp : forall a0, field_action f = a0 -> a_vp (bf f) = Some (vp_of (is_count (Some a0)) (f_t f))).
+    assert (Hvp : forall a0, field_action f = a0 -> a_vp (bf f) = Some (vp_of (is_count (Some a0)) (f_icase f) (f_t f))).
     { intros a0 <-. rewrite bf_vp_eq. unfold field_vp. destruct (f_ty f); try reflexivity. contradiction Hnu; reflexivity. }
     unfold field_form in Hform. unfold stored_vals. rewrite bf_action. unfold bf_dmissing.
     destruct (field_action f) eqn:A; try contradiction.
-    + (* Set *) exists (vp_of false (f_t f)). split; [apply (Hvp ASet eq_refl)|]. cbn [action_default_missing_value].
+    + (* Set *) exists (vp_of false (f_icase f) (f_t f)). split; [apply (Hvp ASet eq_refl)|]. cbn [action_default_missing_value].
       destruct g as [|s0 g0]; [constructor|]. apply Forall_forall. intros s Hs.
       destruct (printed_scalars f v gs Hty Hg (or_introl A) _ s Hgin Hs) as [x [Hx Px]].
       rewrite Forall_forall in Hsr. apply (scalar_accepts _ (f_icase f) s x). apply (Hsr x Hx). exact Px.
-    + (* Append *) exists (vp_of false (f_t f)). split; [apply (Hvp AAppend eq_refl)|]. cbn [action_default_missing_value].
+    + (* Append *) exists (vp_of false (f_icase f) (f_t f)). split; [apply (Hvp AAppend eq_refl)|]. cbn [action_default_missing_value].
       destruct g as [|s0 g0]; [constructor|]. apply Forall_forall. intros s Hs.
       destruct (printed_scalars f v gs Hty Hg (or_intror A) _ s Hgin Hs) as [x [Hx Px]].
       rewrite Forall_forall in Hsr. apply (scalar_accepts _ (f_icase f) s x). apply (Hsr x Hx). exact Px.
